@@ -42,6 +42,15 @@ class Memory:
                 return bytes(r[2])
         raise KeyError(name)
 
+    def below_sp(self, addr, sp):
+        """True if addr lies in the routine's own stack area but BELOW the current stack pointer.  Neither AAPCS64 (Linux, bare metal)
+        nor the ARMv6-M exception model has a red zone: a signal frame or an interrupt's register stacking overwrites that memory at
+        any instruction boundary, so parking a value there is wrong for every input even though no input can show it."""
+        for r in self.regions:
+            if r[4] == "stack" and r[0] <= addr < r[1]:
+                return addr < sp
+        return False
+
 
 def reg(s):
     s = s.strip().lower()
@@ -188,6 +197,8 @@ class A64:
                     ea = (addr + off) & M64
                 else:
                     ea = addr
+                if mem.below_sp(ea, ea if (mode == "pre" and base == 32) else x[32]):
+                    raise SimError("%s at %#x below the stack pointer %#x (no red zone on this ABI): %s" % (op, ea, x[32], _src))
                 if op == "ldp":
                     v1, v2 = mem.load(ea, 8), mem.load(ea + 8, 8)
                     if r1 != 31:
@@ -205,6 +216,8 @@ class A64:
                 _, r1, (base, off, mode), _src = ins
                 addr = x[base] if base == 32 else rd(base)
                 ea = (addr + off) & M64 if mode in ("pre", "off") else addr
+                if mem.below_sp(ea, ea if (mode == "pre" and base == 32) else x[32]):
+                    raise SimError("%s at %#x below the stack pointer %#x (no red zone on this ABI): %s" % (op, ea, x[32], _src))
                 if op == "ldr":
                     v = mem.load(ea, 8)
                     if r1 != 31:
